@@ -655,3 +655,34 @@ def pdu_unpack_summary(c):
         else:
             fields.update({"max_xmit_frag": c.fresh(U16, "mx"), "max_recv_frag": c.fresh(U16, "mr"), "assoc_group": c.fresh(U32, "ag"), "contexts": _opaque_list(c.I, None, None)})
         c.returns(SObj(cls(c, name), fields))
+
+
+def reply_object(c, name):
+    """An arbitrary decoded PDU of class `name` (for callers of _process_response / _send_pdu)."""
+    from pyvc.values import SList
+
+    hdr = SObj(cls(c, "PDUHeader"), {"version": fresh_int("v"), "version_minor": fresh_int("vm"), "packet_type": enum_val(c, "PacketType", fresh_int("pt")),
+                                      "packet_flags": enum_val(c, "PacketFlags", c.fresh(U8, "reply_flags")), "data_rep": None, "frag_len": c.fresh(U16, "fl"),
+                                      "auth_len": c.fresh(U16, "al"), "call_id": fresh_int("call_id")})
+    if c.ctx.branch(z3.Bool("reply_has_no_trailer!%d" % len(c.ctx.taken))):
+        st = None
+    else:
+        st = SObj(cls(c, "SecTrailer"), {"type": enum_val(c, "SecurityProvider", fresh_int("st_type")), "level": enum_val(c, "AuthenticationLevel", fresh_int("st_level")),
+                                          "pad_length": c.fresh(U8, "st_pad"), "context_id": c.fresh(U32, "st_ctx"), "auth_value": c.fresh(T.Bytes, "server_token")})
+    f = {"header": hdr, "sec_trailer": st}
+    if name == "Response":
+        f.update({"alloc_hint": c.fresh(U32, "alloc_hint"), "context_id": c.fresh(U16, "context_id"), "cancel_count": c.fresh(U8, "cancel_count"), "stub_data": c.fresh(T.Bytes, "reply_stub")})
+    else:
+        nres = c.fresh(T.int(0, 255), "n_results")
+        res_cls = cls(c, "ContextResult")
+        tag = fresh_int("ack")
+
+        def res(j, tag=tag):
+            code = z3.Function("ACK_RESULT", z3.IntSort(), z3.IntSort(), z3.IntSort())(tag, Z(j))
+            c.assume(z3.And(code >= 0, code <= 3))
+            return SObj(res_cls, {"result": enum_val(c, "ContextResultCode", code), "reason": fresh_int("reason"), "syntax": None, "syntax_version": fresh_int("sv")})
+
+        f.update({"max_xmit_frag": c.fresh(U16, "mx"), "max_recv_frag": c.fresh(U16, "mr"), "assoc_group": c.fresh(U32, "ag"), "sec_addr": c.fresh(T.Str, "sec_addr"),
+                  "results": SList(nres, res)})
+        f["results"].tag = tag
+    return SObj(cls(c, name), f)
